@@ -16,6 +16,36 @@ def sample(r):
     return {"ops": [list(map(str, o)) for o in r["case"]["ops"][:12]], "answers": r["obs"][:12]}
 
 
+def deep_name_probe():
+    """names of 8 … 3000 parts: a sibling (differs in the last part) is accepted, an equal name, a proper prefix and an
+    extension are refused with ValueError — and nothing else (no RecursionError, no quadratic blow-up)"""
+    from amaranth.lib import wiring
+    from amaranth_soc.memory import MemoryMap
+    fails, stats = [], {"depths": [], "decisions": 0}
+    for depth in (8, 200, 1200, 3000):
+        stats["depths"].append(depth)
+        m = MemoryMap(addr_width=8, data_width=8)
+        base = tuple(f"p{k}" for k in range(depth))
+        exp = [(base + ("a",), True), (base + ("b",), True), (base + ("a",), False), (base, False), (base + ("a", "x"), False),
+               (base[:-1] + ("q",), True), (base[:depth // 2], False), (("other",) + base, True)]
+        for name, ok in exp:
+            stats["decisions"] += 1
+            try:
+                m.add_resource(wiring.Component({}), name=name, size=1)
+                got = True
+            except ValueError:
+                got = False
+            except Exception as e:
+                fails.append(f"a name of {len(name)} parts sharing {depth} parts with a visible name: add_resource raises {type(e).__name__} "
+                             f"({str(e)[:60]}) instead of accepting or refusing it")
+                break
+            if got != ok:
+                fails.append(f"a name of {len(name)} parts (sharing a prefix of about {depth} parts with visible names) is "
+                             f"{'accepted' if got else 'refused'}; the conflict rule says {'accept' if ok else 'refuse'}")
+                break
+    return {"fails": fails, "stats": stats}
+
+
 def run(rep, tier):
     lib.proof_gate(rep, PROP, THEOREMS, IMPORTS)
     n = 500 if tier == "quick" else 200000
@@ -24,6 +54,12 @@ def run(rep, tier):
                                 extra=("names",), nontrivial=nontrivial, oracle_props={"C18"},
                                 sample_fmt=sample, mask_model=mask_names)
     rep.coverage.update(agg)
+    # ---- very long names (thousands of parts) sharing all but the last part / being a prefix of one another: the same rule
+    deep = deep_name_probe()
+    rep.coverage["deep_names"] = deep["stats"]
+    for what in deep["fails"][:2]:
+        rep.violation({"kind": "spec-violation", "what": what, "match": {"experiment": "deep-names"},
+                       "how_to_replay": "harness.props.c18.deep_name_probe()"}, True, "C18: " + what)
     # ---- bounded-exhaustive validation (support for the tie, not a proof): EVERY sequence of k named
     # resources / named windows / anonymous windows over all names of length <= 2 on a small alphabet
     from .. import mm
